@@ -84,6 +84,19 @@ Theorem C03_no_gluing_refuted_F38 :
 Proof. exact F38_refuted. Qed.
 Print Assumptions C03_no_gluing_refuted_F38.
 
+(* F45: an import block that continues a line ending in a backslash (`x = 1; \` / `import foo`) never prints the
+   empty string (which would leave the backslash dangling at the end of the logical line) *)
+Theorem C03_no_gluing_after_backslash : forall (R : list import -> str) c b rest t,
+  f45 c = true -> pp_from R c true (Imps b :: rest) = Ok t -> t <> [].
+Proof. exact emptied_block_after_backslash. Qed.
+Print Assumptions C03_no_gluing_after_backslash.
+
+Theorem C03_no_gluing_refuted_F45 :
+  pp (fun _ => []) unchanged w45_blocks = Ok (dec "x = 1; $5c;$a;"%string) /\
+  pp (fun _ => []) repaired w45_blocks = Ok (dec "x = 1; $5c;$a;$a;"%string).
+Proof. exact F45_refuted. Qed.
+Print Assumptions C03_no_gluing_refuted_F45.
+
 (* future_first.  A __future__ import joins only a block that already holds an import whose first component is
    __future__; otherwise a new block is created, in front of which there are only comment / blank / string
    statements - at most one string (the docstring) with the F9 repair.  (That the renderer prints the
